@@ -28,6 +28,9 @@ type c16Case struct {
 	// Prelude: requests both worlds serve identically before the compared pair
 	// (the property holds after any history, not only on a fresh account).
 	Prelude []string `json:"prelude,omitempty"`
+	// MailFault: the compared request runs with the mail sender ("send") or the mail
+	// renderer ("render") failing - in both worlds; only the one with the account has mail to lose.
+	MailFault string `json:"mail_fault,omitempty"`
 }
 
 var c16PreludeKinds = []string{"rec-known", "rec-known", "rec-unknown", "login-ok", "login-page", "adv1", "adv45", "adv90", "newsess"}
@@ -157,34 +160,43 @@ func c16Run(c c16Case) *Violation {
 		defer w.Close()
 		c16Prelude(w, c, mk)
 		var r *harness.Resp
+		do := func(q harness.Req) *harness.Resp {
+			switch c.MailFault {
+			case "send":
+				w.Mail.Fail = true
+			case "render":
+				q.Fault = harness.FaultPlan{Name: "MailRender", Kind: "generic"}
+			}
+			return w.Do(q)
+		}
 		switch c.Kind {
 		case "locked-pw":
 			what = "correct vs incorrect password for a locked account"
 			if first {
-				r = w.Do(mk(w, "/login", known.PID, known.Password))
+				r = do(mk(w, "/login", known.PID, known.Password))
 			} else {
-				r = w.Do(mk(w, "/login", known.PID, c.WrongPW))
+				r = do(mk(w, "/login", known.PID, c.WrongPW))
 			}
 		case "recover-exists":
 			what = "recovery request for an existing vs a non-existing account"
 			if first {
-				r = w.Do(mk(w, "/recover", known.PID, ""))
+				r = do(mk(w, "/recover", known.PID, ""))
 			} else {
-				r = w.Do(mk(w, "/recover", c.Unknown, ""))
+				r = do(mk(w, "/recover", c.Unknown, ""))
 			}
 		case "login-exists":
 			what = "failed login for a known vs an unknown account"
 			if first {
-				r = w.Do(mk(w, "/login", known.PID, c.WrongPW))
+				r = do(mk(w, "/login", known.PID, c.WrongPW))
 			} else {
-				r = w.Do(mk(w, "/login", c.Unknown, c.WrongPW))
+				r = do(mk(w, "/login", c.Unknown, c.WrongPW))
 			}
 		case "otp-exists":
 			what = "failed otp login for a known vs an unknown account"
 			if first {
-				r = w.Do(mk(w, "/otp/login", known.PID, c.WrongPW))
+				r = do(mk(w, "/otp/login", known.PID, c.WrongPW))
 			} else {
-				r = w.Do(mk(w, "/otp/login", c.Unknown, c.WrongPW))
+				r = do(mk(w, "/otp/login", c.Unknown, c.WrongPW))
 			}
 		default:
 			return transcript{}, fmt.Errorf("unknown pair kind %q", c.Kind)
@@ -259,6 +271,9 @@ func c16Gen(t *rapid.T) c16Case {
 		}
 	}
 	c.Cfg.Accounts[0].Locked, c.Cfg.Accounts[0].Unconfirmed = false, false
+	if c.Kind == "recover-exists" && c.Cfg.Mailer == "" {
+		c.MailFault = pick(t, "mailfault", "", "", "send", "render")
+	}
 	if chance(t, "prelude", 55) {
 		c.Prelude = rapid.SliceOfN(rapid.SampledFrom(c16PreludeKinds), 1, 4).Draw(t, "preludeops")
 		// a prelude login refreshes the last-attempt stamp (and, for a 2FA account, leaves
@@ -278,10 +293,13 @@ func TestC16(t *testing.T) {
 		c := c16Gen(rt)
 		v := c16Run(c)
 		a := c.Cfg.Accounts[0]
-		cls := fmt.Sprintf("%s|json=%v|%v|%v|cnt=%d|ago=%d|totp=%v|sms=%v|rm=%v|mw=%s|err500=%v", c.Kind, c.Cfg.JSON, c.Cfg.Modules, c.Cfg.Setups, c.Count, c.LastAgoS, a.TOTP, a.Phone != "", c.RM, c.Cfg.Middleware, c.Cfg.Err500) + "|" + strings.Join(c.Prelude, ",")
+		cls := fmt.Sprintf("%s|json=%v|%v|%v|cnt=%d|ago=%d|totp=%v|sms=%v|rm=%v|mw=%s|err500=%v", c.Kind, c.Cfg.JSON, c.Cfg.Modules, c.Cfg.Setups, c.Count, c.LastAgoS, a.TOTP, a.Phone != "", c.RM, c.Cfg.Middleware, c.Cfg.Err500) + "|" + strings.Join(c.Prelude, ",") + "|" + c.MailFault
 		classes := []string{"pair:" + c.Kind}
 		if len(c.Prelude) > 0 {
 			classes = append(classes, "with-prelude")
+		}
+		if c.MailFault != "" {
+			classes = append(classes, "mail-fault:"+c.MailFault)
 		}
 		s.record(true, fnv64(cls), classes, func() interface{} { return c })
 		handle(rt, v, "c16", c)
